@@ -217,9 +217,11 @@ class Grid:
     def phase_tuples(self, n):
         if not self.fam.has_phase:
             return [tuple([0] * n)]
+        # Xilinx primitives take the phase as a real number: one fractional phase (the emitted parameter must carry it unchanged)
+        frac = type(self.fam).__name__ == "Xilinx"
         if n == 1:
-            return [(0,), (90,)]
-        return [tuple([0] * (n - 1) + [90])]
+            return [(0,), (90,)] + ([(22.5,)] if frac else [])
+        return [tuple([0] * (n - 1) + [90])] + ([tuple([0] * (n - 1) + [-112.5])] if frac and n == 2 else [])
 
     def counts(self):
         ns = [1, 2, 3] + ([self.nmax] if (self.nmax > 3 and self.z["nm"]) else [])
